@@ -371,6 +371,21 @@ def gen_cases(tier, seed, salt, lmax_block=5, lmax_basis=3, extra=None, nb_quick
         if extra:
             c.update(extra(rng, "block", [sa, sb]))
         cases.append(c)
+    # two DISTINCT centres 1e-4 .. 1e-7 bohr apart, tens of bohr from the origin (coordinates equal to a relative 1e-5):
+    # anything that decides "same centre" with a relative tolerance treats them as one
+    for i in range(4 if tier == "quick" else 16 * scale):
+        la, lb = rng.choice([(0, 1), (1, 0), (1, 2), (2, 1), (0, 3), (1, 1)])
+        la, lb = min(la, lmax_block), min(lb, lmax_block)
+        sa = gen_shell(rng, l=la, kmax=2, mmax=2, sph=False, exp_hi=exp_hi)
+        sb = gen_shell(rng, l=lb, kmax=2, mmax=2, sph=False, exp_hi=exp_hi)
+        t = [rng.choice([-1, 1]) * rng.uniform(15, 60) for _ in range(3)]
+        w = 10.0 ** -rng.randint(4, 7)
+        sa.coord = [Fraction(x) for x in t]
+        sb.coord = [Fraction(x + rng.choice([-1, 1]) * w * rng.uniform(0.5, 1.0)) for x in t]
+        c = {"kind": "block", "a": sa.to_json(), "b": sb.to_json()}
+        if extra:
+            c.update(extra(rng, "block", [sa, sb]))
+        cases.append(c)
     # enumerated: two shells on ONE (off-origin) centre, every (la, lb) and every type assignment
     if lmax_pairs is None:
         lmax_pairs = min(lmax_block, 4)
